@@ -136,3 +136,97 @@ func embOutType(fs []Field) reflect.Type {
 	}
 	return nil
 }
+
+// The module options Remove[T] and RemoveKeyed[T] are generic: one instantiation per pool type, so that the
+// library's own option functions are what a module entry runs (not a closure calling Collection.Remove).
+func removeOption(ty int) godi.ModuleOption {
+	switch ty {
+	case 0:
+		return godi.Remove[*P0]()
+	case 1:
+		return godi.Remove[*P1]()
+	case 2:
+		return godi.Remove[*P2]()
+	case 3:
+		return godi.Remove[*P3]()
+	case 4:
+		return godi.Remove[*P4]()
+	case 5:
+		return godi.Remove[*P5]()
+	case 6:
+		return godi.Remove[*P6]()
+	case 7:
+		return godi.Remove[*P7]()
+	case 8:
+		return godi.Remove[*D0]()
+	case 9:
+		return godi.Remove[*D1]()
+	case 10:
+		return godi.Remove[*D2]()
+	case 11:
+		return godi.Remove[*D3]()
+	case 12:
+		return godi.Remove[*D4]()
+	case 13:
+		return godi.Remove[*D5]()
+	case 14:
+		return godi.Remove[*D6]()
+	case 15:
+		return godi.Remove[*D7]()
+	case 16:
+		return godi.Remove[I0]()
+	case 17:
+		return godi.Remove[I1]()
+	case 18:
+		return godi.Remove[I2]()
+	case 19:
+		return godi.Remove[I3]()
+	}
+	return nil
+}
+
+func removeKeyedOption(ty int, key any) godi.ModuleOption {
+	switch ty {
+	case 0:
+		return godi.RemoveKeyed[*P0](key)
+	case 1:
+		return godi.RemoveKeyed[*P1](key)
+	case 2:
+		return godi.RemoveKeyed[*P2](key)
+	case 3:
+		return godi.RemoveKeyed[*P3](key)
+	case 4:
+		return godi.RemoveKeyed[*P4](key)
+	case 5:
+		return godi.RemoveKeyed[*P5](key)
+	case 6:
+		return godi.RemoveKeyed[*P6](key)
+	case 7:
+		return godi.RemoveKeyed[*P7](key)
+	case 8:
+		return godi.RemoveKeyed[*D0](key)
+	case 9:
+		return godi.RemoveKeyed[*D1](key)
+	case 10:
+		return godi.RemoveKeyed[*D2](key)
+	case 11:
+		return godi.RemoveKeyed[*D3](key)
+	case 12:
+		return godi.RemoveKeyed[*D4](key)
+	case 13:
+		return godi.RemoveKeyed[*D5](key)
+	case 14:
+		return godi.RemoveKeyed[*D6](key)
+	case 15:
+		return godi.RemoveKeyed[*D7](key)
+	case 16:
+		return godi.RemoveKeyed[I0](key)
+	case 17:
+		return godi.RemoveKeyed[I1](key)
+	case 18:
+		return godi.RemoveKeyed[I2](key)
+	case 19:
+		return godi.RemoveKeyed[I3](key)
+	}
+	return nil
+}
